@@ -4,7 +4,7 @@
    hold for whatever ICU computes); the rule tables, the per-language composition,
    the index advance in Flatten::Apply and the printed buffer are regenerated from
    the source (Gen/Src_flatten.v). *)
-From PP Require Import Unicode.FlattenDefs Unicode.MainDefs Unicode.FlattenProofs.
+From PP Require Import Fold.Utf8Grammar Unicode.FlattenDefs Unicode.MainDefs Unicode.FlattenProofs Unicode.ValidInput.
 Local Open Scope Z_scope.
 
 (* Flatten::Apply terminates on every UTF-16 string (the model's fuel error is unreachable) *)
@@ -65,6 +65,33 @@ Theorem C19_tool_spec : forall lower nfkc isspace,
 Proof. exact tool_spec_proof. Qed.
 Print Assumptions C19_tool_spec.
 
+(* With no flag, text passes through unchanged -- for every sequence of lines that are
+   well-formed UTF-8 in the sense of Unicode Table 3-7 ([WF], one constructor per row). *)
+Theorem C19_no_flag_identity : forall lower nfkc isspace lang d ls,
+  flatten_for lang = Some d -> Forall WF ls -> no_delim 10 (concat ls) = true ->
+  process_unicode lower nfkc isspace lang {| f_lower := false; f_flatten := false; f_normalize := false |} (unrecords 10 ls)
+  = POk (unrecords 10 ls).
+Proof. exact no_flag_identity_proof. Qed.
+Print Assumptions C19_no_flag_identity.
+
+(* C19_tool_spec with the independent notion of valid input: every Table 3-7 line is
+   converted (us are the UTF-16 forms, to_utf8 gives the lines back) and transformed per [line_spec] *)
+Theorem C19_tool_spec_table37 : forall lower nfkc isspace,
+  (forall u, wf16 u -> wf16 (lower u)) ->
+  forall lang fl d ls, flatten_for lang = Some d -> Forall WF ls -> no_delim 10 (concat ls) = true ->
+  exists us, map to_utf8 us = ls /\
+    process_unicode lower nfkc isspace lang fl (unrecords 10 ls)
+    = POk (unrecords 10 (map (fun u => to_utf8 (line_spec lower nfkc isspace d fl u)) us)).
+Proof. exact tool_spec_wf_proof. Qed.
+Print Assumptions C19_tool_spec_table37.
+
+Example C19_nonvacuous_table37 : Forall WF [[97; 240; 159; 152; 128; 98]; []; [226; 128; 156; 120]].
+Proof.
+  constructor; [|constructor; [apply wf_nil|constructor; [|constructor]]].
+  - apply wf_1; [unfold rng; lia|]. apply wf_4a; [unfold rng; lia..|]. apply wf_1; [unfold rng; lia|]. apply wf_nil.
+  - apply wf_3b; [unfold rng; lia..|]. apply wf_1; [unfold rng; lia|]. apply wf_nil.
+Qed.
+
 (* non-vacuity of the flatten theorems: English, a supplementary character next to
    triggers, a right-boundary rule that fires and one that does not *)
 Example C19_nonvacuous_flatten :
@@ -78,6 +105,22 @@ Proof.
   split; [vm_compute; reflexivity|]. eexists. split; [vm_compute; reflexivity|].
   vm_compute. repeat split; reflexivity.
 Qed.
+
+(* the per-language composition read from AllFlattenData: left double quotation mark and "' s" *)
+Example C19_nonvacuous_languages :
+  let isspace := fun c => c =? 32 in
+  let run := fun lang cs => match flatten_for lang with Some d => Some (flatten_spec isspace 9 d cs) | None => None end in
+  run [99; 115] [8220] = Some [8220] /\ run [100; 101] [8220] = Some [34] /\ run [101; 115] [8220] = Some [34] /\
+  run [102; 114] [8220] = Some [171] /\ run [101; 110] [8220] = Some [34] /\
+  run [101; 110] [39; 32; 115] = Some [39; 115] /\ run [100; 101] [39; 32; 115] = Some [39; 32; 115] /\
+  run [102; 114] [96; 96; 8230] = Some [171; 46; 46; 46] /\ run [120; 120] [97] = None.
+Proof. vm_compute. repeat split; reflexivity. Qed.
+
+(* preprocess/text.sh runs process_unicode twice: first --flatten --normalize for the language,
+   later (when lowercasing) --lower only; both with the language argument *)
+Example C19_text_sh_stages :
+  text_sh_stage1 = (false, true, true, true) /\ text_sh_stage2 = (true, false, false, true).
+Proof. split; reflexivity. Qed.
 
 (* non-vacuity: three lines, only --flatten (the flag set for which every other line
    used to come out untransformed), English: all three lines are flattened *)
